@@ -108,7 +108,9 @@ def build(reg):
     reg.contract(
         CLI + ".processHandshake", params={"self": "obj:HsClient"}, returns="any",
         requires=["self.state == 1", "len(self.websocket_key) == 24"],
-        modifies=["self.*", "ghost.n_drop", "ghost.n_cancel", "ghost.n_onconnect", "ghost.n_timers", "HsTimer.*"],
+        modifies=["self.*", "ghost.n_drop", "ghost.n_cancel", "ghost.n_onconnect", "ghost.n_timers", "HsTimer.*",
+                  "ghost.rx_host", "ghost.rx_upgrade", "ghost.rx_connection", "ghost.rx_sec_websocket_key",
+                  "ghost.rx_sec_websocket_version"],
         ensures=[
             # nothing happens before the header is complete, however the octets were segmented
             "implies(%s < 0, self.state == 1 and self.data == old(self.data) and ghost.n_drop == old(ghost.n_drop) and "
@@ -198,11 +200,32 @@ def build_server(reg, common):
                           % (k, k, k, k) for k in KEYS + ["sec-websocket-accept"]]
                  + ["'sec-websocket-extensions' not in result[1]"],
                  verify=False, **common)
+    def ext_parse_http(ex, state, args, kwargs, sv):
+        """assumed: (status line, headers, counts) with counts >= 1 for exactly the present headers; which of the
+        handshake-relevant headers the *received* header block carries is remembered in ghost state"""
+        hdr = ex.reg.fresh(ex, state, "dict:str->str", "headers")
+        cnt = ex.reg.fresh(ex, state, "dict:str->int", "header_counts")
+        ho, co = state.heap[hdr.oid], state.heap[cnt.oid]
+        g = _g(state)
+        for k in KEYS + ["sec-websocket-accept"]:
+            kk = z3.StringVal(k)
+            state.assume(z3.Select(ho.sym["has"], kk) == z3.Select(co.sym["has"], kk))
+            state.assume(z3.Implies(z3.Select(co.sym["has"], kk), z3.Select(co.sym["val"], kk) >= 1))
+        state.assume(z3.Not(z3.Select(ho.sym["has"], z3.StringVal("sec-websocket-extensions"))))
+        for k in ("host", "upgrade", "connection", "sec-websocket-key", "sec-websocket-version"):
+            g.fields["rx_" + k.replace("-", "_")] = VBool(z3.Select(ho.sym["has"], z3.StringVal(k)))
+        return VTuple([VStr(z3.String(fresh_name("status_line"))), hdr, cnt])
+    reg.external("hs.parse_http", ext_parse_http)
+    reg.overrides[(P, "parseHttpHeader")] = VFunc("builtin", "hs.parse_http")
+    G.update({"rx_host": "bool", "rx_upgrade": "bool", "rx_connection": "bool", "rx_sec_websocket_key": "bool",
+              "rx_sec_websocket_version": "bool"})
     SRV_OK = "(ghost.n_onconnect == old(ghost.n_onconnect) + 1)"
     reg.contract(
         SRV + ".processHandshake", params={"self": "obj:HsServer"}, returns="any",
         requires=["self.state == 1", "not self.serveFlashSocketPolicy", "self.trustXForwardedFor == 0"],
-        modifies=["self.*", "ghost.n_drop", "ghost.n_onconnect", "ghost.n_fail", "ghost.fail_code", "ghost.n_status"],
+        modifies=["self.*", "ghost.n_drop", "ghost.n_onconnect", "ghost.n_fail", "ghost.fail_code", "ghost.n_status",
+                  "ghost.rx_host", "ghost.rx_upgrade", "ghost.rx_connection", "ghost.rx_sec_websocket_key",
+                  "ghost.rx_sec_websocket_version"],
         ensures=[
             "implies(%s < 0, self.data == old(self.data) and ghost.n_drop == old(ghost.n_drop) and "
             "ghost.n_onconnect == old(ghost.n_onconnect) and ghost.n_fail == old(ghost.n_fail))" % END,
@@ -210,7 +233,8 @@ def build_server(reg, common):
             "implies(%s >= 0, %s != (ghost.n_drop == old(ghost.n_drop) + 1))" % (END, SRV_OK),
             "ghost.n_onconnect <= old(ghost.n_onconnect) + 1 and ghost.n_drop <= old(ghost.n_drop) + 1",
             # what must have been true of the request whenever it is passed on (RFC 6455 4.2.1)
-            "implies(%s, 'host' in %s and 'upgrade' in %s and 'connection' in %s)" % (SRV_OK, H, H, H),
+            "implies(%s, ghost.rx_host and ghost.rx_upgrade and ghost.rx_connection and ghost.rx_sec_websocket_key and "
+            "ghost.rx_sec_websocket_version)" % SRV_OK,
             "implies(%s, self.websocket_version in self.versions)" % SRV_OK,
             "implies(%s, self._wskey is not None and len(self._wskey) == 24 and self._wskey.endswith('=='))" % SRV_OK,
             "implies(%s, self.data == old(self.data)[%s + 4:])" % (SRV_OK, END),
@@ -334,10 +358,14 @@ scases = [("valid", (REQ % (KEY, "13", "")).encode(), True),
           ("bad host port", (REQ % (KEY, "13", "")).replace("localhost:9000", "localhost:abc").encode(), False),
           ("status page, after=abc", b"GET /?redirect=http%3A%2F%2Fx.y&after=abc HTTP/1.1\r\nHost: localhost:9000\r\n\r\n", False),
           ("status page, bad redirect", b"GET /?redirect=http%3A%2F%2Fx.y%3Aabc HTTP/1.1\r\nHost: localhost:9000\r\n\r\n", False),
-          ("garbage", b"\x00\xff\xfe garbage\r\n\r\n", False)]
+          ("garbage", b"\x00\xff\xfe garbage\r\n\r\n", False),
+          ("valid + pipelined frame octets", (REQ % (KEY, "13", "")).encode() + b"\x81\x85abcd", True),
+          ("connection limit reached", (REQ % (KEY, "13", "")).encode(), "limit")]
 for name, data, should_pass in scases:
     for cut in sorted({len(data), 1, len(data) // 2, len(data) - 1}):
         p = server(); before = p._S.scheduled
+        if should_pass == "limit":
+            p.maxConnections = 1; p.factory.countConnections = 3
         try:
             p.data = data[:cut]; p.processHandshake()
             if cut < len(data):
@@ -345,7 +373,9 @@ for name, data, should_pass in scases:
         except Exception as e:
             bad.append({"side": "server", "case": name, "cut": cut, "escaped": "%s: %s" % (type(e).__name__, e)}); break
         passed = p._S.scheduled == before + 1
-        if passed != should_pass:
+        if passed and b"abcd" in data and bytes(p.data) != b"\x81\x85abcd":
+            bad.append({"side": "server", "case": name, "cut": cut, "kept_for_decoder": list(bytes(p.data))}); break
+        if passed != (should_pass is True):
             bad.append({"side": "server", "case": name, "cut": cut, "passed_on": passed, "expected": should_pass}); break
         if not passed and not (p.transport.aborted or p.transport.closed):
             bad.append({"side": "server", "case": name, "cut": cut, "problem": "refused but the connection was not dropped"}); break
